@@ -336,7 +336,7 @@ func main() {
 	os.MkdirAll(gen, 0755)
 
 	var out []*leanFile
-	out = append(out, genEnvelope(), genLog(), genRetention(), genCompact(), genPartition(), genSubscribe(), genTelemetry(), genHandlers(), genGroups(), genSeal(), genGroupSub(), genActivity(), genFailover(), genMetadata(), genRecover(), genProtocol(), genCursors(), genHWReader(), genSealPipe())
+	out = append(out, genEnvelope(), genLog(), genRetention(), genCompact(), genPartition(), genSubscribe(), genTelemetry(), genHandlers(), genGroups(), genSeal(), genGroupSub(), genActivity(), genFailover(), genMetadata(), genRecover(), genProtocol(), genCursors(), genHWReader(), genSealPipe(), genPipeline())
 
 	keep := map[string]bool{}
 	for _, l := range out {
